@@ -121,7 +121,7 @@ def run(tier):
     try:
         # (a) context shapes
         reqs, metas = [], []
-        for i in range(150 if tier == 'quick' else 1500):
+        for i in range(400 if tier == 'quick' else 3000):
             shape = gen_shape(R, 0)
             before = global_config.high_compat_mode
             trace = []
